@@ -219,7 +219,7 @@ func (f *readFile) transmittable(rawLine *bytes.Buffer, length, capacity int,
 	re regex.Regex) (*line.Line, bool) {
 
 	newLine := line.Null()
-	if !re.Match(rawLine.Bytes()) {
+	if !matchLine(re, rawLine) {
 		f.updateLineNotMatched()
 		f.updateLineNotTransmitted()
 		return newLine, false
@@ -234,6 +234,12 @@ func (f *readFile) transmittable(rawLine *bytes.Buffer, length, capacity int,
 	f.updateLineTransmitted()
 
 	return line.New(rawLine, f.totalLineCount(), f.transmittedPerc(), f.globID), true
+}
+
+// matchLine matches the regex against the line without its trailing newline,
+// so that '$' and friends anchor at the end of the line's text like in grep.
+func matchLine(re regex.Regex, rawLine *bytes.Buffer) bool {
+	return re.Match(bytes.TrimSuffix(rawLine.Bytes(), []byte{'\n'}))
 }
 
 // Check wether log file is truncated. Returns nil if not.
